@@ -19,8 +19,8 @@ from icalsim.snapshot import snap_component
 
 ID = "C04"
 RULE = ("each run = 3..12 steps by 1-4 clients in one simulated process: deliver a document (one of the repository's "
-        "own .ics files <= 20 kB or a synthetic calendar with custom VTIMEZONEs, nesting <= 64, zoned/list/period "
-        "values) after 0-3 channel faults (torn, flipped bytes, garbage, lost/duplicated/swapped lines, lost/"
+        "own .ics files <= 20 kB, a synthetic calendar with custom VTIMEZONEs, nesting <= 64, zoned/list/period "
+        "values, or token soup in a sane skeleton) after 0-3 channel faults (torn, flipped bytes, garbage, lost/duplicated/swapped lines, lost/"
         "duplicated/moved blocks, interleaving or concatenation with another writer's document, refolding, hostile "
         "TZID/offset/date fields, structural token substitution) as bytes or str, single or multiple=True, then "
         "to_ical() and walk() on whatever came back; isolation differential on a damaged direct VEVENT line; "
@@ -199,6 +199,91 @@ def gen_synthetic(rng):
     return ("\r\n".join(lines) + "\r\n")
 
 
+
+# ---------------------------------------------------------------------------
+# token soup: lines assembled from the iCalendar vocabulary with no document behind them.  The skeleton is kept
+# sane (a VCALENDAR of mostly VEVENTs, so that a bad line is recorded and the parse goes on); names, VALUE
+# types, parameters and values are combined freely inside it.
+
+SOUP_COMPS = ["VEVENT", "VEVENT", "VEVENT", "VTODO", "VJOURNAL", "VFREEBUSY", "VTIMEZONE", "STANDARD", "DAYLIGHT", "VALARM",
+              "X-COMP", "vevent", "VCALENDAR"]
+SOUP_NAMES = ["DTSTART", "DTEND", "DUE", "DURATION", "RRULE", "EXRULE", "RDATE", "EXDATE", "FREEBUSY", "TRIGGER", "GEO",
+              "ATTENDEE", "ORGANIZER", "ATTACH", "CATEGORIES", "RESOURCES", "SUMMARY", "DESCRIPTION", "COMMENT", "UID",
+              "DTSTAMP", "CREATED", "LAST-MODIFIED", "COMPLETED", "RECURRENCE-ID", "SEQUENCE", "PRIORITY",
+              "PERCENT-COMPLETE", "REPEAT", "STATUS", "TRANSP", "CLASS", "URL", "TZID", "TZNAME", "TZOFFSETFROM",
+              "TZOFFSETTO", "TZURL", "VERSION", "PRODID", "CALSCALE", "METHOD", "ACTION", "REQUEST-STATUS", "RELATED-TO",
+              "CONTACT", "LOCATION", "X-PROP", "X-WR-TIMEZONE", "ACKNOWLEDGED", "COLOR", "IMAGE", "CONFERENCE",
+              "REFRESH-INTERVAL", "SOURCE", "NAME", "X-COMMENT", "BEGINX", "END-X"]
+SOUP_VALUE_TYPES = ["BINARY", "BOOLEAN", "CAL-ADDRESS", "DATE", "DATE-TIME", "DURATION", "FLOAT", "INTEGER", "PERIOD", "RECUR",
+                    "TEXT", "TIME", "URI", "UTC-OFFSET", "X-TYPE", "date", ""]
+SOUP_TZIDS = ["Europe/Berlin", "America/New_York", "Sim/A", "UTC", "Nowhere/X", "W. Europe Standard Time", "/Sim/A"]
+_SDT = ["20200310T100000", "20200310T100000Z", "20200310", "19700101T000000", "19810329T020000"]
+SOUP_GOOD = _SDT + ["PT1H", "-P1D", "20200310T100000Z/PT1H", "20200310T100000/20200310T120000",
+                    "FREQ=YEARLY;BYMONTH=3;BYDAY=-1SU", "FREQ=DAILY;COUNT=3", "1.5;2.5", "5", "+0100", "-0530", "mailto:a@x.org",
+                    "text", "A,B", "TRUE", "100000", "100000Z", "aGVsbG8=", "2.0", "http://x.org/a", "20200310,20200311",
+                    "20200310T100000,20200311T100000"]
+SOUP_TYPED = {
+    "DTSTART": _SDT, "DTEND": _SDT, "DUE": _SDT, "DTSTAMP": _SDT, "CREATED": _SDT, "LAST-MODIFIED": _SDT, "COMPLETED": _SDT,
+    "RECURRENCE-ID": _SDT, "DURATION": ["PT1H", "-P1D", "P1W"], "TRIGGER": ["-PT15M", "20200310T100000Z", "PT0S"],
+    "RRULE": ["FREQ=YEARLY;BYMONTH=3;BYDAY=-1SU", "FREQ=DAILY;COUNT=3"], "EXRULE": ["FREQ=DAILY;COUNT=3"],
+    "RDATE": _SDT + ["20200310,20200311", "20200310T100000,20200311T100000", "20200310T100000Z/PT1H"],
+    "EXDATE": _SDT + ["20200310T100000,20200311T100000"],
+    "FREEBUSY": ["20200310T100000Z/PT1H", "20200310T100000/20200310T120000", "20200310T100000Z/PT1H,20200311T100000Z/PT2H"],
+    "GEO": ["1.5;2.5"], "SEQUENCE": ["5"], "PRIORITY": ["1"], "PERCENT-COMPLETE": ["50"], "REPEAT": ["2"],
+    "TZOFFSETFROM": ["+0100", "-0530", "+0200"], "TZOFFSETTO": ["+0100", "-0530", "+0200"],
+    "ATTENDEE": ["mailto:a@x.org"], "ORGANIZER": ["mailto:o@x.org"], "ATTACH": ["http://x.org/a", "aGVsbG8="],
+    "URL": ["http://x.org/a"], "TZID": SOUP_TZIDS, "CATEGORIES": ["A,B", "A"], "RESOURCES": ["A,B"]}
+SOUP_PARAMS = ["RELATED=END", "RANGE=THISANDFUTURE", "FBTYPE=BUSY", 'CN="A, B"', "X-P=1,2", "LANGUAGE=de", 'ALTREP="cid:x"',
+               "=", "X", 'X="', "X==", "=v", "A=1;A=2", 'X=a"b', "ENCODING=BASE64", "ENCODING=x", "FMTTYPE=text/plain"]
+
+
+def _soup_line(rng, wild):
+    name = rng.choice(SOUP_NAMES)
+    params = ""
+    for _ in range(rng.choice([0, 0, 1, 1, 2, 3] if wild else [0, 0, 0, 1])):
+        k = rng.random()
+        if k < 0.35:
+            params += ";VALUE=" + rng.choice(SOUP_VALUE_TYPES)
+        elif k < 0.65:
+            params += ";TZID=" + rng.choice(SOUP_TZIDS + F.HOSTILE_TZIDS[:8])
+        else:
+            params += ";" + rng.choice(SOUP_PARAMS[:7] if not wild else SOUP_PARAMS)
+    v = rng.random()
+    typed = SOUP_TYPED.get(name, ["text", "A,B", "x\\, y"])
+    if v < (0.45 if wild else 0.9):
+        val = rng.choice(typed)
+    elif v < 0.6 or not wild:
+        val = rng.choice(SOUP_GOOD)
+    elif v < 0.9:
+        val = rng.choice(rng.choice([F.HOSTILE_RULES, F.HOSTILE_DATES, F.HOSTILE_OFFSETS, F.HOSTILE_DURATIONS,
+                                     F.HOSTILE_NUMBERS, F.HOSTILE_URIS, F.HOSTILE_TEXTS]))
+    else:
+        val = ",".join(rng.choice(SOUP_GOOD) for _ in range(rng.randint(2, 4)))
+    return _fold(f"{name}{params}:{val}")
+
+
+def gen_soup(rng):
+    lines = ["BEGIN:VCALENDAR", "VERSION:2.0"]
+    stack = ["VCALENDAR"]
+    for _ in range(rng.randint(4, 45)):
+        r = rng.random()
+        lenient = any(x.upper() == "VEVENT" for x in stack[-1:])
+        if r < 0.2 and len(stack) < 8:
+            c = rng.choice(SOUP_COMPS)
+            lines.append("BEGIN:" + c)
+            stack.append(c)
+            if c in ("VEVENT", "VTODO", "VJOURNAL", "VFREEBUSY") and rng.random() < 0.7:
+                lines.append("UID:soup")
+        elif r < 0.34 and len(stack) > 1:
+            c = stack.pop()
+            lines.append("END:" + (rng.choice(SOUP_COMPS) if rng.random() < 0.1 else c))
+        else:
+            # outside a VEVENT one bad line ends the parse: keep most of those lines well-formed
+            lines.append(_soup_line(rng, wild=lenient or rng.random() < 0.08))
+    while stack and rng.random() < 0.93:
+        lines.append("END:" + stack.pop())
+    return "\r\n".join(lines) + "\r\n"
+
 # ---------------------------------------------------------------------------
 # generation
 
@@ -214,6 +299,8 @@ def _pick_doc(rng, pool):
     if rng.random() < 0.6 and pool:
         i = rng.randrange(len(pool))
         return "repo:" + pool[i][0], pool[i][1]
+    if rng.random() < 0.3:
+        return "soup", gen_soup(rng).encode("utf-8").decode("latin-1")
     return "syn", gen_synthetic(rng).encode("utf-8").decode("latin-1")
 
 
@@ -337,11 +424,11 @@ def abstract_sig(run):
     parts = [run["cfg"]["provider"]]
     for c, op, a in run["trace"]:
         if op == "deliver":
-            parts.append("c%s:deliver:%s:%s:%s:%s" % (c, a["src"] if a["src"] != "syn" else "syn" + digest(a["doc"])[:6],
+            parts.append("c%s:deliver:%s:%s:%s:%s" % (c, a["src"] if a["src"] not in ("syn", "soup") else a["src"] + digest(a["doc"])[:6],
                                                      a["as"], int(a["multiple"]),
                                                      ",".join(_fault_sig(f) for f in a["faults"])))
         elif op == "isolate":
-            parts.append("c%s:isolate:%s:%s:%s" % (c, a["src"] if a["src"] != "syn" else "syn" + digest(a["doc"])[:6],
+            parts.append("c%s:isolate:%s:%s:%s" % (c, a["src"] if a["src"] not in ("syn", "soup") else a["src"] + digest(a["doc"])[:6],
                                                   a["damage"], a["pick"] % 7))
         else:
             parts.append(op + ":" + str(a.get("p") or a.get("view") or ""))
